@@ -221,4 +221,165 @@ theorem handleW_G1 {r : Fin n} {s : St n} (h : G1 r s) (v : Fin n) (c : Cmd n) (
         · rw [hasPStart_toParent s v _ rfl] at h1; cases h1
         · simp [hasPStart] at h1
 
+/-- outside a round the root's queue holds no STOP_ACK, and it never holds a STOP -/
+theorem G1.root_head {r : Fin n} {s : St n} (h : G1 r s) {c : Cmd n} {rest : List (Cmd n)} (hq : s.q r = c :: rest) :
+    c ≠ Cmd.stop ∧ (inRound s r = false → ∀ d, c ≠ Cmd.ack d) := by
+  have hm : c ∈ s.q r := by rw [hq]; exact List.mem_cons_self
+  have hok := h.qOk r c h.rootAlive hm
+  constructor
+  · intro e; subst e; exact hok rfl
+  · intro hr d e; subst e
+    have hcd : isChild s r d = true := hok
+    have := (h.idle_children hr hcd).2.2.2.1
+    rw [hq, cAck_cons] at this; simp at this
+
+theorem stepDeq_G1 {r : Fin n} {s s' : St n} (h : G1 r s) (v : Fin n) (hs : stepDeq s v = some s') : G1 r s' := by
+  unfold stepDeq at hs
+  split at hs
+  · rename_i hg
+    split at hs
+    · cases hs
+    · rename_i c rest hq
+      simp only at hs
+      split at hs
+      · rename_i hpc; cases hs
+        exact handleW_G1 h v c rest hg.1 (h.worker_ne_root hg.1 (by rw [hpc]; rfl)) hq hg.2
+      · rename_i j hpc; cases hs
+        exact handleW_G1 h v c rest hg.1 (h.worker_ne_root hg.1 (by rw [hpc]; rfl)) hq hg.2
+      · rename_i hpc; cases hs
+        have hvr : v = r := h.root_pc hg.1 (by rw [hpc]; rfl)
+        subst hvr
+        have hnr : inRound s v = false := h.root_not_inRound (by rw [hpc]; rfl)
+        obtain ⟨h1, h2⟩ := h.root_head hq
+        refine h.neutral v (s.pc v) rest [] hg.1 rfl rfl rfl rfl rfl rfl (Or.inr ⟨c, hq, h1, h2 hnr⟩)
+          (by rw [← hg.2, upd_self]) hg.2 (by intro d; simp [pStop]) (by intro p d; simp [pAck]) (by intro o ho; cases ho)
+          (by intro hst; simp [hasPStart] at hst) (by simp) rfl ?_
+        intro _ hir; rw [hnr] at hir; cases hir
+      · rename_i hpc; cases hs
+        have hvr : v = r := h.root_pc hg.1 (by rw [hpc]; rfl)
+        subst hvr
+        obtain ⟨h1, h2⟩ := h.root_head hq
+        have hmem : ∀ x, x ∈ rest → x ∈ s.q v := by intro x hx; rw [hq]; exact List.mem_cons_of_mem _ hx
+        have hpur : (rest.filter Cmd.isPurger).length ≤ 1 := filter_purger_tail (by rw [← hq]; exact h.purger1 v hg.1)
+        cases c with
+        | ack src =>
+          simp only [handleE]
+          obtain ⟨hge, hsum, hlev⟩ := h.ack_local rest [] hg.1 hq hg.2 (by intro c; simp [pStop])
+          refine h.local v (s.pc v) rest [] (s.selfWait v) (s.childWait v - 1) hg.1 rfl rfl rfl rfl hmem hpur
+            (by rw [← hg.2, upd_self]) (by simp) rfl (by simp) rfl hsum hlev ?_ (by intro o ho; cases ho)
+            (fun hne => absurd rfl hne) (fun _ _ => by rw [hpc]; rfl) (by intro _ hst; simp [hasPStart] at hst)
+          intro p hc; exact absurd rfl (h.child_ne_root hc)
+        | init | start _ _ | stop | quit | report _ _ _ | quitAck _ =>
+          simp only [handleE]
+          refine h.neutral v (s.pc v) rest [] hg.1 rfl rfl rfl rfl rfl rfl (Or.inr ⟨_, hq, h1, by intro d; simp⟩)
+            (by rw [← hg.2, upd_self]) hg.2 (by intro d; simp [pStop]) (by intro p d; simp [pAck]) (by intro o ho; cases ho)
+            (by intro hst; simp [hasPStart] at hst) (by simp) rfl (fun _ _ => by rw [hpc]; rfl)
+      · rename_i hpc; cases hs
+        have hvr : v = r := h.root_pc hg.1 (by rw [hpc]; rfl)
+        subst hvr
+        have hnr : inRound s v = false := h.root_not_inRound (by rw [hpc]; rfl)
+        obtain ⟨h1, h2⟩ := h.root_head hq
+        have hrr : v = v → inRound s v = true → roundPc (s.pc v) = true := by
+          intro _ hir; rw [hnr] at hir; cases hir
+        cases c with
+        | quitAck src =>
+          simp only [handleE]
+          refine h.neutral v (s.pc v) rest [] hg.1 rfl rfl rfl rfl rfl rfl (Or.inr ⟨_, hq, h1, h2 hnr⟩)
+            (by rw [← hg.2, upd_self]) hg.2 (by intro d; simp [pStop]) (by intro p d; simp [pAck]) (by intro o ho; cases ho)
+            (by intro hst; simp [hasPStart] at hst) (by simp) rfl hrr
+        | init | start _ _ | stop | quit | report _ _ _ | ack _ =>
+          simp only [handleE]
+          refine h.neutral v (s.pc v) rest [] hg.1 rfl rfl rfl rfl rfl rfl (Or.inr ⟨_, hq, h1, h2 hnr⟩)
+            (by rw [← hg.2, upd_self]) hg.2 (by intro d; simp [pStop]) (by intro p d; simp [pAck]) (by intro o ho; cases ho)
+            (by intro hst; simp [hasPStart] at hst) (by simp) rfl hrr
+      · cases hs
+  · cases hs
+
+theorem hasPStart_stop_bcast (s : St n) (v : Fin n) : hasPStart (Out.notify v :: bcast s v Cmd.stop) = false := by
+  have hb := hasPStart_bcast s v Cmd.stop rfl
+  unfold hasPStart at hb ⊢
+  rw [List.any_cons, hb]; rfl
+
+/-- with no pending actions, `debtDown` with the unchanged queue is the debt -/
+theorem debtDown_same {s : St n} {v : Fin n} (hout : s.out v = []) (ol : List (Out n)) (hol : ∀ c, pStop ol c = 0) (c : Fin n) :
+    debtDown s v (s.q v) ol c = debt s v c := by
+  unfold debtDown debt
+  rw [hol, hout]; simp [pStop]
+
+theorem stepAckSelf_G1 {r : Fin n} {s s' : St n} (h : G1 r s) (v : Fin n) (hs : stepAckSelf s v = some s') : G1 r s' := by
+  unfold stepAckSelf at hs
+  split at hs
+  · rename_i hg
+    have hpur := h.purger1 v hg.1
+    split at hs
+    · rename_i hpc
+      have hne : v ≠ r := h.worker_ne_root hg.1 (by rw [hpc]; rfl)
+      split at hs
+      · rename_i hsw; cases hs
+        obtain ⟨p0, hp0, _⟩ := h.par v hg.1 hne
+        have hps0 : ∀ c, pStop (if s.childWait v = 0 then toParent s v (.ack v) else []) c = 0 := by
+          intro c; split
+          · exact pStop_toParent s v _ (by simp) c
+          · simp [pStop]
+        have hir : inRound s v = true := by simp [inRound, hsw]
+        refine h.local v .wait (s.q v) _ false (s.childWait v) hg.1 rfl rfl rfl (by simp) (fun _ hx => hx) hpur rfl rfl (by simp) rfl
+          (by rw [hpc]; rfl) ?_ ?_ ?_ ?_ ?_ (fun e => absurd e hne) (fun e => absurd e hne)
+        · refine Eq.trans (h.sum v hg.1) ?_
+          exact sumCh_congr s s v _ _ (fun _ => rfl) (fun c _ => (debtDown_same hg.2 _ hps0 c).symm)
+        · intro c hc; rw [debtDown_same hg.2 _ hps0 c]; exact h.le1 v c hc
+        · intro p hc
+          have hpp : p = p0 := by
+            have := ((isChild_iff s p v).1 hc).2; rw [hp0] at this; cases this; rfl
+          subst hpp
+          unfold debtUp debt
+          rw [hir, hg.2]
+          by_cases hz : s.childWait v = 0
+          · rw [if_pos hz]
+            have : pAck (toParent s v (Cmd.ack v)) p v = 1 := by simp [toParent, hp0, pAck]
+            rw [this]; simp [hz, pAck]; omega
+          · rw [if_neg hz]
+            have : (false || decide (0 < s.childWait v)) = true := by simp; omega
+            rw [this]
+        · intro o ho; split at ho
+          · exact OutOk_toParent s v _ (by simp [mentions]) o ho
+          · cases ho
+        · intro _ hst
+          exfalso
+          rcases hst with h1 | h1
+          · have := h.startRound v hg.1 hne (Or.inl h1)
+            rw [hir] at this; cases this
+          · split at h1
+            · rw [hasPStart_toParent s v _ rfl] at h1; cases h1
+            · simp [hasPStart] at h1
+      · cases hs
+        exact h.frame_pc v .wait rfl rfl rfl rfl rfl rfl rfl rfl hg.2 (by rw [hpc]; rfl) (fun e => absurd e hne)
+    · rename_i hpc; cases hs
+      have hvr : v = r := h.root_pc hg.1 (by rw [hpc]; rfl)
+      subst hvr
+      refine h.local v .ecollect (s.q v) [] false (s.childWait v) hg.1 rfl rfl rfl (by simp) (fun _ hx => hx) hpur
+        (by rw [← hg.2, upd_self]) rfl (by simp) rfl (by rw [hpc]; rfl) ?_ ?_ ?_ (by intro o ho; cases ho)
+        (fun hne => absurd rfl hne) (fun _ _ => rfl) (by intro _ hst; simp [hasPStart] at hst)
+      · refine Eq.trans (h.sum v hg.1) ?_
+        exact sumCh_congr s s v _ _ (fun _ => rfl) (fun c _ => (debtDown_same hg.2 _ (by intro c; simp [pStop]) c).symm)
+      · intro c hc; rw [debtDown_same hg.2 _ (by intro c; simp [pStop]) c]; exact h.le1 v c hc
+      · intro p hc; exact absurd rfl (h.child_ne_root hc)
+    · cases hs
+  · cases hs
+
+theorem stepEStopSend_G1 {r : Fin n} {s s' : St n} (h : G1 r s) (hs : stepE r s .eStopSend = some s') : G1 r s' := by
+  simp only [stepE] at hs
+  split at hs
+  · rename_i hg; cases hs
+    have hnr : inRound s r = false := h.root_not_inRound (by rw [hg.2]; rfl)
+    obtain ⟨hsum, hlev⟩ := h.stop_local (v := r) (s.q r) hnr (fun _ => Nat.le_refl _)
+    refine h.local r .eack (s.q r) (Out.notify r :: bcast s r .stop) true (nChildren s r) h.rootAlive rfl rfl rfl (by simp [setPc]) (fun _ hx => hx)
+      (h.purger1 r h.rootAlive) rfl rfl rfl rfl (by rw [hg.2]; rfl) hsum hlev ?_ ?_ (fun hne => absurd rfl hne) (fun _ _ => rfl) ?_
+    · intro p hc; exact absurd rfl (h.child_ne_root hc)
+    · intro o ho
+      rcases List.mem_cons.1 ho with e | ho
+      · subst e; simp [OutOk]
+      · exact OutOk_bcast s r _ rfl o ho
+    · intro _ hst; rw [hasPStart_stop_bcast] at hst; cases hst
+  · cases hs
+
 end Conc
